@@ -335,11 +335,7 @@ pub fn run_encodings(r: &mut Report) {
         r,
     );
     composite::<crate::protocol::ipa_prf::verif::ProofDiffAlias>("ProofDiff", &[8; 15], &fp61_slot, &|_| Some(le(p61, 8)), r);
-    {
-        let n = <crate::protocol::ipa_prf::verif::ProofArrayAlias as Serializable>::Size::USIZE / 8;
-        let sizes = vec![8usize; n];
-        composite::<crate::protocol::ipa_prf::verif::ProofArrayAlias>("Box<ProofArray>", &sizes, &fp61_slot, &|_| Some(le(p61 + 2, 8)), r);
-    }
+    // (the proof-batch message, Box<[Fp61BitPrime; ARRAY_LEN]>, is checked through the real channel in c09p.rs)
     composite::<(Seed2)>("(Seed,Seed)", &[32, 32], &|s, k| vec![[0u8, 0xff, s as u8 + 1, 1][k]; 32], &|_| None, r);
 }
 
